@@ -2,6 +2,7 @@ package sx
 
 import (
 	"fmt"
+	"unicode"
 	"go/types"
 	"regexp"
 	"regexp/syntax"
@@ -218,7 +219,7 @@ func (m *Machine) callVx(caller *frame, fn *ssa.Function, args []value) (value, 
 		return st.And(args[0].(*Term), args[1].(*Term)), true
 	case "vxImplies":
 		return st.Or(st.Not(args[0].(*Term)), args[1].(*Term)), true
-	case "vxIte":
+	case "vxIte", "vxIteByte", "vxIteInt":
 		c := args[0].(*Term)
 		return st.Ite(c, args[1].(*Term), args[2].(*Term)), true
 	}
@@ -376,20 +377,21 @@ func (m *Machine) regexMatchSym(re *regexp.Regexp, s *SymStr) *Term {
 		m.Intrinsics["regexp-minlen-rule"]++
 		return m.st.ff
 	}
-	// restrict to ASCII on this path (the other side is outside the bound)
-	ascii := m.st.tt
-	for _, b := range s.b {
-		ascii = m.st.And(ascii, m.st.Bin(OpULT, b, m.st.BV(8, 0x80)))
-	}
-	if !m.branch(ascii) {
-		m.incomplete("regexp on a symbolic non-ASCII string (outside the bound)")
+	// decode the string into runes with the real decoder (forks on UTF-8 structure), then
+	// simulate the compiled program of the real pattern over the rune terms
+	var runes []*Term
+	var rest value = s
+	for strLen(rest) > 0 {
+		r, n := m.decodeRune(rest)
+		runes = append(runes, r)
+		rest = m.strSlice(rest, n, strLen(rest))
 	}
 	m.Intrinsics["regexp-nfa-encoding"]++
-	return m.regexNFA(re, s.b)
+	return m.regexNFA(re, runes)
 }
 
-// regexNFA simulates the Thompson program of re on n byte terms (each known
-// to be ASCII) and returns the Bool term "some prefix-unanchored match exists".
+// regexNFA simulates the Thompson program of re on n rune terms (32-bit) and
+// returns the Bool term "some prefix-unanchored match exists".
 func (m *Machine) regexNFA(re *regexp.Regexp, bs []*Term) *Term {
 	parsed, err := syntax.Parse(re.String(), syntax.Perl)
 	if err != nil {
@@ -430,10 +432,10 @@ func (m *Machine) regexNFA(re *regexp.Regexp, bs []*Term) *Term {
 				c = st.ff
 			}
 			if op&syntax.EmptyBeginLine != 0 && pos != 0 {
-				c = st.And(c, st.Eq(bs[pos-1], st.BV(8, '\n')))
+				c = st.And(c, st.Eq(bs[pos-1], st.BV(32, '\n')))
 			}
 			if op&syntax.EmptyEndLine != 0 && pos != n {
-				c = st.And(c, st.Eq(bs[pos], st.BV(8, '\n')))
+				c = st.And(c, st.Eq(bs[pos], st.BV(32, '\n')))
 			}
 			if op&(syntax.EmptyWordBoundary|syntax.EmptyNoWordBoundary) != 0 {
 				isW := func(i int) *Term {
@@ -442,9 +444,9 @@ func (m *Machine) regexNFA(re *regexp.Regexp, bs []*Term) *Term {
 					}
 					b := bs[i]
 					rng := func(lo, hi byte) *Term {
-						return st.And(st.Bin(OpULE, st.BV(8, uint64(lo)), b), st.Bin(OpULE, b, st.BV(8, uint64(hi))))
+						return st.And(st.Bin(OpULE, st.BV(32, uint64(lo)), b), st.Bin(OpULE, b, st.BV(32, uint64(hi))))
 					}
-					return st.Or(st.Or(rng('a', 'z'), rng('A', 'Z')), st.Or(rng('0', '9'), st.Eq(b, st.BV(8, '_'))))
+					return st.Or(st.Or(rng('a', 'z'), rng('A', 'Z')), st.Or(rng('0', '9'), st.Eq(b, st.BV(32, '_'))))
 				}
 				diff := st.Not(st.Eq(isW(pos-1), isW(pos)))
 				if op&syntax.EmptyWordBoundary != 0 {
@@ -461,13 +463,12 @@ func (m *Machine) regexNFA(re *regexp.Regexp, bs []*Term) *Term {
 			set[pc] = st.Or(set[pc], cond)
 		}
 	}
-	step := func(in *syntax.Inst, b *Term) *Term {
-		r := st.ZExt(b, 32)
+	step := func(in *syntax.Inst, r *Term) *Term {
 		switch in.Op {
 		case syntax.InstRuneAny:
 			return st.tt
 		case syntax.InstRuneAnyNotNL:
-			return st.Not(st.Eq(b, st.BV(8, '\n')))
+			return st.Not(st.Eq(r, st.BV(32, '\n')))
 		case syntax.InstRune1:
 			c := st.Eq(r, st.BV(32, uint64(in.Rune[0])))
 			if syntax.Flags(in.Arg)&syntax.FoldCase != 0 {
@@ -490,12 +491,6 @@ func (m *Machine) regexNFA(re *regexp.Regexp, bs []*Term) *Term {
 			}
 			for i := 0; i+1 < len(in.Rune); i += 2 {
 				lo, hi := in.Rune[i], in.Rune[i+1]
-				if lo > 0x7f {
-					continue
-				}
-				if hi > 0x7f {
-					hi = 0x7f
-				}
 				c = st.Or(c, st.And(st.Bin(OpULE, st.BV(32, uint64(lo)), r), st.Bin(OpULE, r, st.BV(32, uint64(hi)))))
 			}
 			return c
@@ -525,16 +520,7 @@ func (m *Machine) regexNFA(re *regexp.Regexp, bs []*Term) *Term {
 	return matched
 }
 
-func simpleFold(r rune) rune {
-	// ASCII-only fold orbit (K and S have non-ASCII members that cannot match an ASCII byte)
-	switch {
-	case r >= 'a' && r <= 'z':
-		return r - 32
-	case r >= 'A' && r <= 'Z':
-		return r + 32
-	}
-	return r
-}
+func simpleFold(r rune) rune { return unicode.SimpleFold(r) }
 
 var _ = types.Typ
 
